@@ -335,6 +335,11 @@ impl Dictionary {
     pub fn verif_category_names(&self) -> Vec<String> {
         self.char_prop().verif_categories().to_vec()
     }
+
+    /// Returns the magic bytes every dictionary image of this version starts with.
+    pub fn verif_model_magic() -> &'static [u8] {
+        MODEL_MAGIC
+    }
 }
 
 /// Sets the seed that decides the template trial order of the dual-connector builder on the
